@@ -65,6 +65,10 @@ def run(chk):
     for n in names:
         by_fn.setdefault(n.split("-")[0], []).append(n)
     directed = [[a, b] for grp in by_fn.values() for a in grp for b in grp if a != b]
+    # a plotting call that leaves its figure open, followed by each plotting call that is made WITHOUT an axes argument
+    if "plotting.rankfrequency-figure-left-open" in names:
+        directed += [["plotting.rankfrequency-figure-left-open", b] for b in plot if b != "plotting.rankfrequency-figure-left-open"
+                     and ("no-ax" in b or "clustermap" in b)]
     histories += directed
     kd = [n for n in names if "kdtree" in n]
     histories += [[a, b, a] for a in kd for b in kd if a != b]
